@@ -16,6 +16,8 @@ contract("artap.operators:ParetoDominance.compare",
          loops={1: ["dominate_p == exists(lambda i: q[i] > p[i], 0, _k)",
                     "dominate_q == exists(lambda i: p[i] > q[i], 0, _k)",
                     "not (dominate_p and dominate_q)"]},
+         # comparison-only code: exact for finite floats, so the run-time twin compares exactly too (no rounding tolerance)
+         options={"exact_floats": True},
          pure=True, returns="pareto_spec(p, q)")
 
 _three = [("p", "List[Real]"), ("q", "List[Real]"), ("r", "List[Real]")]
